@@ -399,10 +399,11 @@ Definition change_denoms_ok (auth_ok : bool) (adds rems : list Z) : bool :=
 Definition change_denoms (adds rems : list Z) (reg : list Z) : list Z :=
   fold_left (fun r d => remove_z d r) rems (fold_left (fun r d => insert_sorted d r) adds reg).
 
-(* MsgSetConsumerCommissionRate *)
+(* MsgSetConsumerCommissionRate: ValidateBasic (rate in [0,1]), validator known to staking, consumer active,
+   rate >= MinCommissionRate; the handler then needs the consumer's chain id (else the tx fails and rolls back) *)
 Definition set_commission_ok (c rate : Z) (known : bool) (f : conf) : bool :=
   (0 <=? rate) && (rate <=? dec_of_int 1) && known
-  && (match find_cons c f with Some i => ci_active i | None => false end)
+  && (match find_cons c f with Some i => ci_active i && ci_chain i | None => false end)
   && (minrate f <=? rate).
 
 (* CreateConsumerValidator + SetConsumerValSet: a validator already in the stored set keeps its JoinHeight *)
@@ -693,8 +694,20 @@ Definition mon_begin (D NV : Z) (env : benv) (f : conf) (p q : tree) : list Z :=
            (A' <=? A) && (0 <=? A') &&
            ((A' =? A) || (ci_client i && (memz d (registered f) || memz d (lookup_list (ci_id i) (allowl f)))
                           && (1 <? b_h env)))) (cons f)) 7 ++
-    (* only eligible validators, exactly the coded share, under the per-consumer commission *)
+    (* only eligible validators: a reward appears only for a validator that is eligible in the stored set of
+       a consumer whose credit in this denom was consumed in this block *)
     chk (forallb (fun v =>
+           let dv := nthz (nth (Z.to_nat v) (sp_outst q) []) d - nthz (nth (Z.to_nat v) (sp_outst p) []) d in
+           let dc := nthz (nth (Z.to_nat v) (sp_comm q) []) d - nthz (nth (Z.to_nat v) (sp_comm p) []) d in
+           (0 <=? dv) && (0 <=? dc) && (dc <=? dv) &&
+           ((dv =? 0) || existsb (fun e => (ev_v e =? v) && (ev_d e =? d)) evs)) (range NV)) 17 ++
+    (* exactly the coded share under the per-consumer commission (when every consuming consumer lists the
+       denom once, i.e. allocates it once in this block) *)
+    chk (negb (forallb (fun i =>
+                 let ci := Z.to_nat (index_of (ci_id i) f) in
+                 (nthz (nth ci (sp_alloc p) []) d <=? nthz (nth ci (sp_alloc q) []) d) ||
+                 (Z.of_nat (count_occ Z.eq_dec (registered f ++ lookup_list (ci_id i) (allowl f)) d) =? 1)) (cons f)) ||
+         forallb (fun v =>
            let exp_amt := sumz (map (fun e => if (ev_v e =? v) && (ev_d e =? d) then ev_amt e else 0) evs) in
            let exp_com := sumz (map (fun e => if (ev_v e =? v) && (ev_d e =? d) then ev_comm e else 0) evs) in
            (nthz (nth (Z.to_nat v) (sp_outst q) []) d - nthz (nth (Z.to_nat v) (sp_outst p) []) d =? exp_amt) &&
